@@ -152,6 +152,19 @@ class C11(Check):
                 f"breaks,joins={got[1:]} expected {want[1:]}; broken={sorted(map(sorted, j_in - j_out))!r} joined={sorted(map(sorted, j_out - j_in))!r}",
             )
         ctx.outcome(h64((ospec, got)))
+        # history: the fused assemblies are requested a second time from the same object
+        try:
+            out2 = ba.assemblies_with_scaffolds_fused()
+        except Exception as e:  # noqa: BLE001
+            ctx.count("second_request_raised_" + type(e).__name__)
+            return
+        st2 = ba.assembly_stats
+        o2 = pv.out_spec(out2)
+        nout2 = sum(1 for lst in o2.values() for _, rows in lst for r in rows if r[0] == "F")
+        j_out2 = junction_set(rows for lst in o2.values() for _, rows in lst)
+        want2 = (nout2 - nin, len(j_in - j_out2), len(j_out2 - j_in))
+        if (st2.cuts, st2.breaks, st2.joins) != want2:
+            ctx.violation("second-request-miscounts", case, f"after a second assemblies_with_scaffolds_fused(): cuts,breaks,joins={(st2.cuts, st2.breaks, st2.joins)} expected {want2}")
 
     def run_shard(self, shard, ctx):
         kind = shard[0]
